@@ -110,6 +110,11 @@ WideForeign == { [id |-> 93, v |-> M1(TI64, TBinary, I64v, Bin(<<120, 121>>))], 
                  [id |-> 93, v |-> M1(TI8, TBinary, Num(TI8, 1), Bin(<<1, 2, 3>>))], [id |-> 93, v |-> M1(TI32, TBool, Num(TI32, 1), Num(TBool, 1))],
                  [id |-> 93, v |-> [t |-> TList, et |-> TMap, e |-> << M1(TI64, TBinary, I64v, Bin(<<120>>)) >>]],
                  [id |-> 93, v |-> [t |-> TStruct, f |-> << [id |-> 1, v |-> M1(TI64, TBinary, I64v, Bin(<<120>>))] >>]],
+                 \* empty containers of fixed-width items: nothing to skip, and nothing of what follows may be consumed
+                 [id |-> 93, v |-> [t |-> TList, et |-> TI32, e |-> <<>>]], [id |-> 93, v |-> [t |-> TSet, et |-> TDouble, e |-> <<>>]],
+                 [id |-> 93, v |-> [t |-> TMap, kt |-> TI64, vt |-> TI64, m |-> <<>>]], [id |-> 93, v |-> Bin(<<>>)],
+                 [id |-> 93, v |-> M1(TBinary, TList, Bin(<<107>>), [t |-> TList, et |-> TI64, e |-> <<>>])],
+                 [id |-> 93, v |-> [t |-> TStruct, f |-> << [id |-> 1, v |-> [t |-> TSet, et |-> TBool, e |-> <<>>]] >>]],
                  [id |-> 93, v |-> [t |-> TSet, et |-> TI64, e |-> << I64v >>]], [id |-> 93, v |-> [t |-> TList, et |-> TDouble, e |-> << DblV, DblV >>]] }
 W0 == ToWireRef(WSchema, Ref(wd.name), v)
 \* (evolution and injection are independent concerns: injection is explored on the unevolved writer)
